@@ -87,6 +87,23 @@ def blk_choice(rng, size):
     return 'c%d' % rng.randrange(0, max(1, size))
 
 
+MAKE_FORMATS = ['pax', 'gnutar', 'ustar', 'v7tar', 'newc', 'odc', 'bin', 'zip', '7zip', 'xar', 'iso9660',
+                'arbsd', 'arsvr4', 'mtree', 'paxr', 'pwb']
+MAKE_FILTERS = ['none', 'none', 'none', 'gzip', 'bzip2', 'xz', 'zstd', 'lz4', 'compress', 'lzip', 'lzma', 'uuencode', 'b64encode']
+
+
+def made_archives(rng, count):
+    """Archives produced by libarchive's own writers (harness op `make`): (label, load-op, approx size)."""
+    out = []
+    for _ in range(count):
+        fmt = rng.choice(MAKE_FORMATS); filt = rng.choice(MAKE_FILTERS)
+        if fmt in ('7zip', 'zip', 'xar', 'iso9660') and filt != 'none' and rng.random() < 0.7:
+            filt = 'none'
+        n = rng.choice([1, 3, 6, 10])
+        out.append((f'{fmt}+{filt}', f'make fmt={fmt} filt={filt} seed={rng.randrange(1, 10**6)} n={n}', 20000 * n))
+    return out
+
+
 class Part(ReadBase):
     """C05: same archive, same capabilities, another partition or byte source."""
     name = 'part'
@@ -104,9 +121,18 @@ class Part(ReadBase):
                 blk = blk_choice(rng, size) if v.startswith('cb') else 'w'
                 ops.append(f'run blk={blk} src={v} cons=A trunc=- fault=-')
             yield Case(f'part:{name}:{cls}', ops, {'cls': cls})
+        for label, mk, size in made_archives(rng, 40 if tier == 'quick' else 300):
+            cls = rng.choice(['K', 'K', 'N', 'S'])
+            refsrc, variants = CLASSES[cls]
+            ops = [mk, f'run blk=w src={refsrc} cons=A trunc=- fault=-']
+            for _ in range(3 if tier == 'quick' else 8):
+                v = rng.choice(variants).format(bs=rng.choice([7, 512, 513, 10240]), cut=rng.randrange(0, 4000))
+                blk = rng.choice(['7', '511', '512', '513', '10240', 'r%d' % rng.randrange(1, 999), 'c%d' % rng.randrange(0, 3000)]) if v.startswith('cb') else 'w'
+                ops.append(f'run blk={blk} src={v} cons=A trunc=- fault=-')
+            yield Case(f'part:made:{label}:{cls}', ops, {'cls': cls})
 
 
-CONS = ['A', 'a', 'B', 'P10', 'P1000', 'S', 'N']
+CONS = ['A', 'a', 'B', 'P10', 'P1000', 'S', 'N', 'R1', 'R512', 'R4096']
 
 
 class Cons(ReadBase):
@@ -127,6 +153,17 @@ class Cons(ReadBase):
             for v in vecs[:4 if tier == 'quick' else 12]:
                 ops.append(f'run blk={blk} src={src} cons={",".join(v)} trunc=- fault=-')
             yield Case(f'cons:{name}', ops)
+        for label, mk, size in made_archives(rng, 40 if tier == 'quick' else 300):
+            src = rng.choice(['cbk', 'cbk', 'cb', 'cbs'])
+            blk = rng.choice(['w', '512', '10240', 'r7'])
+            ops = [mk, f'run blk={blk} src={src} cons=A trunc=- fault=-']
+            vecs = [['B'], ['a'], ['S'], ['N'], ['P10'], ['P1000'], ['R512']]
+            for _ in range(4):
+                vecs.append([rng.choice(CONS) for _ in range(rng.choice([2, 3, 5]))])
+            rng.shuffle(vecs)
+            for v in vecs[:4 if tier == 'quick' else 10]:
+                ops.append(f'run blk={blk} src={src} cons={",".join(v)} trunc=- fault=-')
+            yield Case(f'cons:made:{label}', ops)
 
 
 class Trunc(ReadBase):
@@ -151,6 +188,16 @@ class Trunc(ReadBase):
                 fb = blk if blk != 'w' else rng.choice(['512', 'w'])
                 ops.append(f'run blk={fb} src={src} cons=A trunc=- fault={kind}@{idx}')
             yield Case(f'trunc:{name}', ops)
+        for label, mk, size in made_archives(rng, 30 if tier == 'quick' else 200):
+            src = rng.choice(['cbk', 'cb', 'cbs'])
+            blk = rng.choice(['w', '512', '10240', '513'])
+            ops = [mk, f'run blk={blk} src={src} cons=A trunc=- fault=-']
+            for _ in range(5 if tier == 'quick' else 40):
+                ops.append(f'run blk={blk} src={src} cons=A trunc={rng.randrange(0, size)} fault=-')
+            for _ in range(3 if tier == 'quick' else 12):
+                kind = rng.choice(['err', 'err', 'eof', 'skiperr', 'skipshort', 'seekerr'])
+                ops.append(f'run blk={blk if blk != "w" else "512"} src={src} cons=A trunc=- fault={kind}@{rng.choice([0, 1, 2, 3, 5, 8, 13, 30])}')
+            yield Case(f'trunc:made:{label}', ops)
 
 
 def mutate(rng, data):
